@@ -133,3 +133,10 @@ Proof. exact product_lancom. Qed.
 (* boundary of the version expression (not a finding: no product has one-character versions) *)
 Theorem c16_version_needs_two_characters : forall d p, is_digit d = true -> patch_ok p -> ver_split (String d p) = None.
 Proof. exact product_single_digit_unrecognised. Qed.
+
+(* literals the model repeats from the source are the ones the translator extracts from the current source (gen/Tables.v) *)
+From VGen Require Import Tables.
+From VModel Require Import BannerM.
+From VProofs Require Import TieProofs.
+Theorem c16_tie_banner_products : forall v, sw_parse_str (String.append "tinyssh_" v) = Some (mkS None product_TinySSH v None) /\ sw_parse_str (String.append "PuTTY_Release_" v) = Some (mkS None product_PuTTY v None).
+Proof. exact tie_banner_products. Qed.
